@@ -603,6 +603,14 @@ class RawAlgorithmsMixIn:
         """
         z = |x|
         """
+        if numpy.iscomplexobj(x_data):
+            # |x(t)| = sqrt(x(t) conj(x(t))), a real polynomial
+            tmp = cls._mul(x_data, numpy.conj(x_data)).real
+            z_data = cls._sqrt(tmp, out=numpy.empty_like(tmp))
+            if out is None:
+                return z_data
+            out[...] = z_data
+            return out
         if out is None:
             z_data = numpy.empty_like(x_data)
         else:
@@ -621,6 +629,10 @@ class RawAlgorithmsMixIn:
     def _pb_absolute(cls, ybar_data, x_data, y_data, out = None):
         if out is None:
             raise NotImplementedError('should implement that')
+        if numpy.iscomplexobj(x_data):
+            # d|x| = Re(conj(x) dx)/|x|
+            fprime_data = cls._truediv(numpy.conj(x_data), y_data, out=numpy.empty_like(x_data))
+            return cls._amul(ybar_data, fprime_data, out=out)
         fprime_data = numpy.empty_like(x_data)
         D = x_data.shape[0]
         for d in range(D):
